@@ -431,7 +431,16 @@ func cmdCheck(args []string) {
 		perKey[key]++
 		f := filepath.Join(replayDir, fmt.Sprintf("%s-%s-%d.json", fv.run.spec.Func, sanitize(fv.v.Label), perKey[key]))
 		writeReplay(f, prop, fv.run.spec, "counterexample", fv.v.Label, fv.v.Inputs, fv.v)
-		if fv.run.spec.NoReplay && fv.v.Kind != "maprace" {
+		randDependent := false
+		for _, in := range fv.v.Inputs {
+			if strings.HasPrefix(in.Label, "rand.") {
+				randDependent = true // values drawn from math/rand cannot be forced in the native run
+			}
+		}
+		if fv.v.Extra["timer-dependent"] == "true" {
+			randDependent = true // the relative timing of a timer cannot be forced in the native run either
+		}
+		if (fv.run.spec.NoReplay || randDependent) && fv.v.Kind != "maprace" {
 			// schedule-dependent finding: the engine trace is the replay artefact
 			violationLines = append(violationLines, fmt.Sprintf("VIOLATION property=%s replay=%s", prop, f))
 			fmt.Printf("  (engine-trace) harness=%s label=%s kind=%s site=%s: %s\n", fv.run.spec.Func, fv.v.Label, fv.v.Kind, fv.v.Site, fv.v.Detail)
